@@ -8,6 +8,8 @@ A case expands (`queries`) into a fixed list of function evaluations; implementa
     commute    fn(agg?, pairs…) | fn(agg?, permuted pairs…)
     ifs1       …IF(rng, crit[, agg]) | …IFS([agg,] rng, crit)
     avg        AVERAGEIFS(agg, pairs…) | SUMIFS(agg, pairs…) | COUNTIFS(pairs…)   (agg numeric)
+    seq        scenario SEQ[i] in fresh processes:  main alone | prelude | main right after the prelude
+A `call` case may carry `prelude`: a call evaluated just before it in the same process (only the main call is compared).
 `via` selects the observation point:
     f   a formula ("=COUNTIF(A1:C5,E1)") compiled by ExcelFormula and evaluated through build_eval_context with range
         and cell reads answered from a dict — exactly what evaluating a cell holding the formula does, minus the
@@ -16,7 +18,12 @@ A case expands (`queries`) into a fixed list of function evaluations; implementa
 An argument is a protocol token (scalar) or a list [rows, cols, tok…] (a range, row-major).
 """
 import itertools
+import json
+import math
+import os
 import re
+import subprocess
+import sys
 
 from harness import core, pyc
 
@@ -39,7 +46,13 @@ RULE = ('deterministic core: every criterion of the grammar (numbers, numeric te
         'functions, the partition pair for every criteria text, every ordered pair of pool cells (thorough).  Random: '
         'ranges 1..5 x 1..3 filled in four styles (mixed / numbers / text / mixed with errors), 1-3 criteria pairs, all '
         'eight functions, via formula (literal or referenced criteria) and lib; composite cases partition / commute '
-        '(random permutation) / ifs1 / avg.  Malformed stream: unequal range sizes, blank / logical / error-value '
+        '(random permutation) / ifs1 / avg.  Near-equal numbers (1 ulp apart, 0.1+0.2 vs 0.3, integers beyond 2^53 '
+        'differing by 1; exact rationals to the model): every near value as number / text / op+text criterion x every '
+        'near cell, partition and ...IFS over the near column, and in the random stream.  Sequences: criteria that '
+        'are ==-equal in Python but differently typed (1/TRUE/"1", 0/FALSE/"") in consecutive calls, both orders: '
+        '`seq` scenarios in FRESH interpreter processes (main call alone vs right after the prelude call) and the '
+        'same pairs adjacent in the checking process (`prelude`).  Also '
+        'a malformed stream: unequal range sizes, blank / logical / error-value '
         'criteria, bare "<" ">" "<=" ">=", scalar range arguments.  A case is non-trivial when a criteria range has '
         '>= 2 cells of >= 2 kinds or it is a one-cell case of the deterministic core; distinct = distinct case dict.')
 ASSUMPTIONS = [
@@ -63,7 +76,7 @@ XL = {f: f.upper() for f in FNS}
 IFS_OF = {'countif': 'countifs', 'sumif': 'sumifs', 'averageif': 'averageifs'}
 REQUIRED_BUCKETS = ['core:' + k for k in ('number', 'opnumber', 'text', 'optext', 'wild', 'empty')] + \
                    ['call:' + f for f in FNS] + ['partition', 'commute', 'ifs1', 'avg', 'malformed:size',
-                                                 'malformed:criteria']
+                                                 'malformed:criteria', 'near', 'seq', 'prelude']
 
 S = core.enc_text
 OPS = ('', '=', '<>', '<', '<=', '>', '>=')
@@ -78,6 +91,13 @@ NUM_CRIT = [3, 0, 2.5, -2]
 TEXT_CRIT = ['a', 'abc', 'ABC', 'b', '1x', 'That', '#N/A', 'true', 'axc', 'a.c']
 WILD_CRIT = ['a*', 'a?c', '*', '?', '??', 'a~?c', 'a~*', 'a+*', 'a(*', '*c', '?*', 'a.?', '[a]*', '~~', 'a~', '*b*',
              'a*c', 'A?C', '~a', 'a\\*', '^a*', 'a*$', 'a|b*', 'a{1}*', '~*', '*~?*', 'T??t', '**', 'a~~c']
+
+
+# near-equal numbers: 1 ulp apart, integers beyond 2^53 differing by 1, 0.1+0.2 against 0.3.  The model receives the
+# exact rational of every float, so "=" must separate them exactly as "<>" does.
+NEAR = [0.3, 0.1 + 0.2, math.nextafter(0.3, 0), 1, 1 + 2.0 ** -52, 1 - 2.0 ** -53, 10 ** 17, 10 ** 17 + 1,
+        10 ** 17 - 1, 2 ** 53, 2 ** 53 + 1, 2 ** 53 - 1, 0.1, math.nextafter(0.1, 1), 123456.789,
+        math.nextafter(123456.789, 0)]
 
 
 def _tok(v):
@@ -162,8 +182,78 @@ def queries(c):
     return [norm_query(c['via'], fn, args) for fn, args in raw_queries(c)]
 
 
+# ---- sequences: criteria that are ==-equal in Python but differently typed (1 / TRUE / "1", 0 / FALSE / ""), one call
+# right after the other.  `seq` scenarios run in FRESH interpreter processes (so that nothing evaluated earlier in this
+# run can hide or cause a dependence on the previous call): the main call alone, and the prelude call followed by the
+# main call.  A case only carries the scenario index; the oracle text spells the concrete pair of calls.
+SEQ_RANGE = [7, 1, 'n:1/1', 'b:1', 'n:0/1', 'b:0', 's:49', 's:', 'z']
+SEQ_VALS = [7, 1] + [f'n:{2 ** k}/1' for k in range(7)]
+SEQ_PAIRS = [('b:1', 'n:1/1'), ('n:1/1', 'b:1'), ('b:0', 'n:0/1'), ('n:0/1', 'b:0'), ('n:1/1', 's:49'),
+             ('s:49', 'n:1/1'), ('n:0/1', 's:'), ('s:', 'n:0/1')]
+
+
+def _seq_scenarios():
+    out = []
+    for a, b in SEQ_PAIRS:
+        out.append(('l', ('countif', [SEQ_RANGE, a]), ('countif', [SEQ_RANGE, b])))
+    for a, b in SEQ_PAIRS[:2]:
+        out.append(('f', ('countif', [SEQ_RANGE, a]), ('countif', [SEQ_RANGE, b])))
+    for a, b in SEQ_PAIRS[2:4]:
+        out.append(('l', ('countifs', [SEQ_RANGE, a]), ('sumifs', [SEQ_VALS, SEQ_RANGE, b])))
+    return out
+
+
+SEQ = _seq_scenarios()
+_SEQ_OUT = {}
+_SEQ_SCRIPT = ('import sys, json; sys.path.insert(0, %r); from harness.props import c15\n'
+               'job = json.loads(sys.stdin.readline())\n'
+               'print(json.dumps([c15.run_query(job["via"], fn, args, False) for fn, args in job["qs"]]))\n'
+               % os.path.dirname(os.path.dirname(os.path.dirname(os.path.abspath(__file__)))))
+
+
+def _seq_run_all():
+    """every scenario twice, each in its own fresh interpreter, all started at once"""
+    procs = []
+    for i, (via, pre, main) in enumerate(SEQ):
+        for tag, qs in (('alone', [main]), ('after', [pre, main])):
+            p = subprocess.Popen([sys.executable, '-c', _SEQ_SCRIPT], stdin=subprocess.PIPE, stdout=subprocess.PIPE,
+                                 stderr=subprocess.DEVNULL, text=True)
+            p.stdin.write(json.dumps({'via': via, 'qs': qs}) + '\n')
+            p.stdin.close()
+            procs.append((i, tag, p))
+    res = {}
+    for i, tag, p in procs:
+        line = p.stdout.readline()
+        p.wait()
+        try:
+            res[(i, tag)] = json.loads(line)
+        except Exception:   # noqa
+            res[(i, tag)] = ['!seq-subprocess-failed'] * (1 if tag == 'alone' else 2)
+    for i in range(len(SEQ)):
+        _SEQ_OUT[i] = '|'.join(res[(i, 'alone')] + res[(i, 'after')])
+
+
+def _seq_impl(i):
+    if i not in _SEQ_OUT:
+        _seq_run_all()
+    return _SEQ_OUT[i]
+
+
+def _show_arg(a):
+    if isinstance(a, list):
+        return '{' + ';'.join(core.show(t) for t in a[2:]) + '}'
+    return core.show(a)
+
+
+def show_call(fn, args):
+    return f'{XL[fn]}({", ".join(_show_arg(a) for a in args)})'
+
+
 def raw_queries(c):
     k = c['k']
+    if k == 'seq':
+        _, pre, main = SEQ[c['i']]
+        return [main, pre, main]
     if k == 'call':
         return [(c['fn'], c['args'])]
     if k == 'partition':
@@ -182,7 +272,9 @@ def raw_queries(c):
         ifs = IFS_OF[fn]
         if fn == 'countif':
             return [(fn, args), (ifs, args)]
-        agg = args[2] if len(args) > 2 else args[0]
+        # a blank third argument is `None` = not given: the equivalent …IFS call aggregates the criteria range itself
+        given = len(norm_query(c['via'], fn, args)[1]) > 2
+        agg = args[2] if given else args[0]
         return [(fn, args), (ifs, [agg, args[0], args[1]])]
     if k == 'avg':
         args = c['args']
@@ -283,6 +375,11 @@ def run_query(via, fn, args, lit):
 
 
 def impl(c):
+    if c['k'] == 'seq':
+        return _seq_impl(c['i'])
+    if 'prelude' in c:      # a previous call in the same process; only the main call is compared
+        fn, args = c['prelude']
+        run_query(c['via'], fn, args, False)
     return '|'.join(run_query(c['via'], fn, args, c.get('lit', False)) for fn, args in raw_queries(c))
 
 
@@ -322,18 +419,24 @@ def split_crit(tok):
     if '\n' in s or '\r' in s:
         return None
     if PLAIN_NUM.fullmatch(s):
-        return 'num', '', float(s)
+        return 'num', '', _num_of_text(s)
     if _floats(s):
         return None
     m = OPER_RE.fullmatch(s)
     op, value = m.group(1) or '', m.group(2)
     if PLAIN_NUM.fullmatch(value):
-        return 'num', op, float(value)
+        return 'num', op, _num_of_text(value)
     if _floats(value):
         return None
     if op in ('<', '<=', '>', '>=') and value == '':
         return None
     return 'text', op, value
+
+
+def _num_of_text(s):
+    """coerce_to_number on plain numeric text: int() without a '.', else float() — exact, never through a float for
+    integers (10**17+1 must stay distinct from 10**17)"""
+    return int(s) if '.' not in s else float(s)
 
 
 def _floats(s):
@@ -456,6 +559,13 @@ def _is_value(tok):
 
 
 def oracles(results):
+    for c, text in _oracles(results):
+        if 'prelude' in c:
+            text += f' [previous call in the same process: {show_call(*c["prelude"])}]'
+        yield c, text
+
+
+def _oracles(results):
     precompute_findings(results)
     for r in results:
         c = r.case
@@ -463,6 +573,12 @@ def oracles(results):
             continue
         outs = r.impl.split('|')
         qs = queries(c)
+        if c['k'] == 'seq' and len(outs) == 3 and outs[0] != outs[2]:
+            # a call's answer does not depend on what was evaluated before it
+            _, pre, main = SEQ[c['i']]
+            yield c, (f'in a fresh process, right after {show_call(*pre)} the call {show_call(*main)} gives '
+                      f'{core.show(outs[2])}; evaluated alone it gives {core.show(outs[0])} (via {SEQ[c["i"]][0]})')
+            continue
         if not governed(c):
             continue
         # never fails: a number or an Excel error value (MAXIFS/MINIFS may hand back a logical of the range)
@@ -591,7 +707,7 @@ def _kinds(a):
 
 
 def nontrivial(c):
-    if c.get('core'):
+    if c.get('core') or c.get('near') or c['k'] == 'seq' or 'prelude' in c:
         return True
     for fn, args in queries(c)[:1]:
         _, slots = pair_slots(fn, len(args))
@@ -603,6 +719,12 @@ def nontrivial(c):
 
 
 def bucket(c):
+    if c['k'] == 'seq':
+        return 'seq'
+    if 'prelude' in c:
+        return 'prelude'
+    if c.get('near'):
+        return 'near'
     if c.get('core'):
         return 'core:' + c['core']
     if c.get('mal'):
@@ -618,6 +740,9 @@ def bucket(c):
 def _fill(rng_, n, style):
     nums = [_tok(v) for v in NUM_CELLS + [0.5, -1.25, 7, 4]]
     texts = [S(t) for t in TEXT_CELLS]
+    if style == 'near':
+        near = [_tok(v) for v in NEAR]
+        return [rng_.choice(near) for _ in range(n)]
     if style == 'numbers':
         return [rng_.choice(nums) for _ in range(n)]
     if style == 'text':
@@ -630,8 +755,10 @@ def _fill(rng_, n, style):
 
 def _rand_crit(rng_):
     u = rng_.random()
-    if u < 0.8:
+    if u < 0.7:
         return rng_.choice(CRIT_TOKS)
+    if u < 0.8:
+        return S(rng_.choice(OPS) + repr(rng_.choice(NEAR)))
     # compose: op + (number | pool text | wildcard built from a pool text)
     op = rng_.choice(OPS)
     v = rng_.random()
@@ -657,7 +784,7 @@ def _rand_call(rng_, fn=None, mal=None):
     r, c = rng_.randint(1, 5), rng_.randint(1, 3)
     n = r * c
     npairs = 1 if fn in ('countif', 'sumif', 'averageif') else rng_.randint(1, 3)
-    style = rng_.choice(('mixed', 'mixed', 'numbers', 'text', 'noerr'))
+    style = rng_.choice(('mixed', 'mixed', 'numbers', 'text', 'noerr', 'near'))
     pairs = []
     for _ in range(npairs):
         pairs += [rng(r, c, _fill(rng_, n, style)), _rand_crit(rng_)]
@@ -704,6 +831,36 @@ def cases(tier, rng_):
         for cell in POOL:
             yield {'k': 'call', 'fn': 'countif', 'args': [rng(1, 1, [cell]), crit], 'via': 'l', 'core': cls}
             yield {'k': 'call', 'fn': 'countif', 'args': [cell, crit], 'via': 'f', 'lit': False, 'core': cls}
+    # ---- sequences in fresh processes (statelessness), and the same typed-equal pairs adjacent in THIS process, in
+    #      both orders, over a range holding numbers, logicals, numeric text, empty text and a blank
+    for i in range(len(SEQ)):
+        yield {'k': 'seq', 'i': i, 'via': SEQ[i][0]}
+    for a, b in SEQ_PAIRS:
+        for via in ({'via': 'l'}, {'via': 'f', 'lit': False}):
+            for fn in ('countif', 'countifs'):
+                yield {'k': 'call', 'fn': fn, 'args': [SEQ_RANGE, b], 'prelude': [fn, [SEQ_RANGE, a]], **via}
+            yield {'k': 'call', 'fn': 'sumifs', 'args': [SEQ_VALS, SEQ_RANGE, b],
+                   'prelude': ['maxifs', [SEQ_VALS, SEQ_RANGE, a]], **via}
+    # ---- near-equal numbers: every near value as criterion (number, text, op + text) x every near cell, the
+    #      partition pair and the ...IFS consumers over the whole near column
+    near_toks = [_tok(v) for v in NEAR]
+    nn = len(NEAR)
+    nearcol = rng(nn, 1, near_toks)
+    dycol = rng(nn, 1, [f'n:{2 ** k}/1' for k in range(nn)])
+    for v in NEAR:
+        crits = [_tok(v)] + [S(op + repr(v)) for op in OPS]
+        for crit in crits:
+            for cell in near_toks:
+                yield {'k': 'call', 'fn': 'countif', 'args': [rng(1, 1, [cell]), crit], 'via': 'l', 'near': 1}
+                yield {'k': 'call', 'fn': 'countif', 'args': [cell, crit], 'via': 'f', 'lit': False, 'near': 1}
+            yield {'k': 'call', 'fn': 'countifs', 'args': [nearcol, crit], 'via': 'l', 'near': 1}
+            yield {'k': 'call', 'fn': 'sumifs', 'args': [dycol, nearcol, crit], 'via': 'f', 'lit': False, 'near': 1}
+            yield {'k': 'call', 'fn': 'sumif', 'args': [nearcol, crit, dycol], 'via': 'l', 'near': 1}
+            yield {'k': 'call', 'fn': 'maxifs', 'args': [dycol, nearcol, crit], 'via': 'l', 'near': 1}
+        for via in ({'via': 'l'}, {'via': 'f', 'lit': True}):
+            yield {'k': 'partition', 'args': [nearcol, S(repr(v))], 'near': 1, **via}
+        yield {'k': 'commute', 'fn': 'countifs', 'args': [nearcol, S('>=' + repr(v)), nearcol, S('<=' + repr(v))],
+               'perm': [1, 0], 'via': 'l', 'near': 1}
     # ---- deterministic core 2: every criterion over the whole pool as a column, all eight functions
     n = len(POOL)
     col = rng(n, 1, POOL)
